@@ -43,6 +43,8 @@ inductive Ex where
   | psParams                 -- ps(params)
   | tab                      -- the tab stop of the enclosing loop over vt.tabStop
   | param0                   -- `param[0]` of the enclosing `for _, param := range params`
+  | lenOld                   -- resize(): `len(primary)` (the snapshot of the old primary screen)
+  | lenOld0                  -- resize(): `len(primary[0])` (a checked access: see `Stmt.forS`)
   deriving DecidableEq, Repr, Inhabited
 
 inductive Cmp where
@@ -82,9 +84,6 @@ inductive Prim where
   | activePrimary
   /-- resize(): `switch vt.mode.smcup { case false: vt.activeScreen = vt.primaryScreen default: vt.activeScreen = vt.altScreen }` -/
   | activeBySmcup
-  /-- resize(): the reflow loop nest over the old primary screen (its source text is fixed in the
-      translator; its meaning is the model's `reflow`) -/
-  | reflowOld
   /-- resize(): `pen := vt.cursor.Style` (a copy of the pen, held in the frame) -/
   | savePen
   /-- resize(): `vt.cursor.Style = pen` -/
@@ -171,6 +170,18 @@ inductive Stmt where
   | setMode (f : ModeField) (b : Bool)
   /-- `for _, param := range params { body }` (`param[0]` is `Ex.param0`) -/
   | forParams (body : Stmt)
+  /-- A function-level loop `for v := lo; v <bnd>; v += 1 { body }` whose body runs at function level (it may assign,
+      call, break): `v` is the int local `v`; the bounds may only read literals and the lengths of the local snapshot
+      `primary` (immutable), so they are those at loop entry. -/
+  | forS (v : Nat) (lo : Ex) (hi : Bnd) (body : Stmt)
+  /-- resize(): `cell := primary[r][c]` (a copy of an OLD cell, held in the frame) -/
+  | loadOldCell (r c : Ex)
+  /-- resize(): `vt.cursor.Style = cell.Style` -/
+  | penFromCell
+  /-- resize(): `vt.print(ansi.Print{Grapheme: cell.Character.Grapheme, Width: cell.Character.Width})` -/
+  | printCell
+  /-- resize(): `wrapped = cell.wrapped` (a bool local, held as 0/1) -/
+  | assignCellWrapped (k : Nat)
   /-- `fmt.Fprintf(vt.pty, …)`: a reply to the child; no effect on the emulator state -/
   | reply
   /-- `ch := vt.activeScreen[r][c]` (a copy of the cell, held in the frame) -/
